@@ -163,6 +163,39 @@ func randRecs(r *rand.Rand, format string) []Rec {
 	return out
 }
 
+// bigRecs: a few hundred stacks over long frame names: binary bodies of 5-20 KiB, i.e. several fills of the decoders'
+// 4 KiB bufio buffer
+func bigRecs(r *rand.Rand) []Rec {
+	n := lib.Range(r, 250, 600)
+	seen := map[string]bool{}
+	var out []Rec
+	for len(out) < n {
+		k := fmt.Sprintf("mod%02d.EntryPoint_long_name;pkg%02d.Handler_with_a_long_name_%02d;leaf%03d.function_body_%02d",
+			r.Intn(10), r.Intn(12), r.Intn(12), r.Intn(400), r.Intn(12))
+		if seen[k] {
+			continue
+		}
+		seen[k] = true
+		out = append(out, Rec{K: k, V: uint64(lib.Range(r, 1, 90))})
+	}
+	return out
+}
+
+func genBigCase(r *rand.Rand) Input {
+	c := newCtx(r)
+	var in Input
+	for _, f := range []string{lib.Pick(r, []string{"tree", "trie"}), lib.Pick(r, []string{"tree", "trie"})} {
+		s := Step{Name: Bs(c.names[0]), From: abs(c.base), Until: abs(c.base + 10), Format: sptr(f), Single: true, Mut: "bigbody"}
+		s.Recs, s.HasRecs = bigRecs(r), true
+		s.Body = renderBody(f, s.Recs)
+		in.Steps = append(in.Steps, s)
+		if lib.Chance(r, 0.5) {
+			in.Steps = append(in.Steps, genBad(r, c))
+		}
+	}
+	return in
+}
+
 // ---------- generators ----------
 
 const tLo = 864403200
@@ -390,10 +423,29 @@ func genRender(r *rand.Rand, c *caseCtx) Step {
 	if lib.Chance(r, 0.4) {
 		s.Extra = append(s.Extra, [2]string{"max-nodes", lib.Pick(r, []string{"0", "1", "-1", "junk", "99999999999999999999", "2"})})
 	}
+	switch s.Mut {
+	case "nospace", "retention-refuse", "truncate", "longline", "emptybody", "hostile":
+		// a request that is (probably) refused carries metadata and tag values no accepted request of the case uses
+		var extra [][2]string
+		for _, kv := range s.Extra {
+			if kv[0] != "spyName" && kv[0] != "sampleRate" && kv[0] != "units" {
+				extra = append(extra, kv)
+			}
+		}
+		s.Extra = append(extra, [2]string{"spyName", fmt.Sprintf("refusedspy%d", r.Intn(1000))}, [2]string{"sampleRate", "77"}, [2]string{"units", "refusedunits"})
+		if lib.Chance(r, 0.5) && len(s.Name) > 0 {
+			s.Name = Bs(c.names[0] + fmt.Sprintf("{zone=z%06x}", r.Intn(1<<24)))
+		} else if lib.Chance(r, 0.6) {
+			s.Name = Bs(c.names[0])
+		}
+	}
 	return s
 }
 
 func gen(r *rand.Rand, idx int, tier string) Input {
+	if idx%40 == 7 {
+		return genBigCase(r)
+	}
 	c := newCtx(r)
 	var in Input
 	in.Steps = append(in.Steps, genValid(r, c))
@@ -495,31 +547,71 @@ func floor10(t int64) int64 {
 	return q * 10
 }
 
-func dumpAll(ws []watch) ([]string, string) {
+// dumpAll: storage.Get of every watch: the tree and the metadata (spy name, sample rate, units) it reports
+func dumpAll(ws []watch) ([]string, []string, string) {
 	out := make([]string, len(ws))
+	meta := make([]string, len(ws))
 	crash := ""
 	for i, w := range ws {
 		func() {
+			out[i], meta[i] = "None", "None"
 			defer func() {
 				if r := recover(); r != nil {
 					crash = fmt.Sprintf("storage.Get panicked: %v", r)
-					out[i] = "None"
 				}
 			}()
 			key, err := storage.ParseKey(string(w.name))
 			if err != nil {
-				out[i] = "None"
 				return
 			}
 			g, err := srvStor.Get(&storage.GetInput{StartTime: time.Unix(w.lo, 0), EndTime: time.Unix(w.hi, 0), Key: key})
 			if err != nil || g == nil || g.Tree == nil {
-				out[i] = "None"
 				return
 			}
 			out[i] = lib.Some(treeu.Coq(g.Tree.VerifDump()))
+			meta[i] = lib.Some("(" + lib.Bytes([]byte(g.SpyName)) + ", " + lib.N(uint64(g.SampleRate)) + ", " + lib.Bytes([]byte(g.Units)) + ")")
 		}()
 	}
-	return out, crash
+	return out, meta, crash
+}
+
+// probesOf: the (label key, value) pairs a series name stands for, read off Key.Normalized()
+func probesOf(name []byte) [][2]string {
+	key, err := storage.ParseKey(string(name))
+	if err != nil {
+		return nil
+	}
+	out := [][2]string{{"__name__", key.AppName()}}
+	n := key.Normalized()
+	if i := strings.Index(n, "{"); i >= 0 && strings.HasSuffix(n, "}") {
+		for _, kv := range strings.Split(n[i+1:len(n)-1], ",") {
+			if j := strings.Index(kv, "="); j > 0 {
+				out = append(out, [2]string{kv[:j], kv[j+1:]})
+			}
+		}
+	}
+	return out
+}
+
+// dumpLabels: is each probe listed by the label listings (Storage.GetKeys / GetValues, what /labels and /label-values serve)?
+func dumpLabels(probes [][2]string) string {
+	keys := map[string]bool{}
+	srvStor.GetKeys(func(k string) bool { keys[k] = true; return true })
+	items := make([]string, len(probes))
+	for i, p := range probes {
+		found := false
+		if keys[p[0]] {
+			srvStor.GetValues(p[0], func(v string) bool {
+				if v == p[1] {
+					found = true
+					return false
+				}
+				return true
+			})
+		}
+		items[i] = lib.Bool(found)
+	}
+	return lib.List(items)
 }
 
 // coqBody prints a body as a Coq term of type bytes; runs of >= 64 equal bytes are run-length encoded (brep c n)
@@ -596,12 +688,23 @@ func run(in Input) lib.Result {
 			ws[i] = watch{s.Name, lo, hi}
 		}
 	}
+	var probes [][2]string
+	seenProbe := map[[2]string]bool{}
+	for _, s := range in.Steps {
+		for _, p := range probesOf(s.Name) {
+			if !seenProbe[p] {
+				seenProbe[p] = true
+				probes = append(probes, p)
+			}
+		}
+	}
 	var steps []string
 	statuses := []int{}
 	muts := []string{}
 	crash := ""
 	accepted, rejectedAfterAccepted := 0, 0
-	var prevAfter []string
+	var prevAfter, prevMeta []string
+	prevLabels := "[]"
 	for i, s := range in.Steps {
 		var q [][2]string
 		q = append(q, [2]string{"name", string(s.Name)})
@@ -629,10 +732,12 @@ func run(in Input) lib.Result {
 			srvCfg.Retention = time.Since(time.Unix(*s.RetThr, 0))
 		}
 		// answers before the first request; later the answers after the previous request are the answers before
-		var before []string
+		var before, metaBefore []string
+		labelsBefore := "[]"
 		c1 := ""
 		if i == 0 {
-			before, c1 = dumpAll(ws)
+			before, metaBefore, c1 = dumpAll(ws)
+			labelsBefore = dumpLabels(probes)
 		}
 		req := httptest.NewRequest("POST", "/ingest?"+vals.Encode(), bytes.NewReader(s.Body))
 		if s.Render {
@@ -671,12 +776,13 @@ func run(in Input) lib.Result {
 		t1 := time.Now()
 		storage.OutOfSpaceThreshold = 0
 		srvCfg.Retention = 0
-		after := prevAfter
+		after, metaAfter, labelsAfter := prevAfter, prevMeta, prevLabels
 		c2 := ""
 		if !wedged {
-			after, c2 = dumpAll(ws)
+			after, metaAfter, c2 = dumpAll(ws)
+			labelsAfter = dumpLabels(probes)
 		}
-		prevAfter = after
+		prevAfter, prevMeta, prevLabels = after, metaAfter, labelsAfter
 		if c1 != "" {
 			crash = c1
 		}
@@ -700,7 +806,9 @@ func run(in Input) lib.Result {
 			"; s_records := "+recs+"; s_space_ok := "+lib.Bool(!s.NoSpace)+"; s_ret_thr := "+thr+
 			"; s_t0 := "+nsOf(t0)+"; s_t1 := "+nsOf(t1)+"; s_status := "+lib.Z(int64(status))+
 			"; s_self := "+lib.Nat(i)+"; s_single_slot := "+lib.Bool(s.Single)+
-			"; s_before := "+lib.List(before)+"; s_after := "+lib.List(after)+" |}")
+			"; s_before := "+lib.List(before)+"; s_after := "+lib.List(after)+
+			"; s_meta_before := "+lib.List(metaBefore)+"; s_meta_after := "+lib.List(metaAfter)+
+			"; s_labels_before := "+labelsBefore+"; s_labels_after := "+labelsAfter+" |}")
 		statuses = append(statuses, status)
 		m := s.Mut
 		if m == "" {
